@@ -8,6 +8,8 @@ import (
 	"go/ast"
 	"go/token"
 	"go/types"
+	"sort"
+	"strings"
 )
 
 // impl returns the unique repository type implementing the public interface
@@ -297,12 +299,36 @@ func coveringLoop(c *Ctx, info *types.Info, loop ast.Stmt) (types.Object, string
 	return nil, "not a loop"
 }
 
-// bulkFold checks that fd is a fold of the single-element method over its
-// operand: one covering loop over param.GetIterator(), whose body calls
-// recv.single(element ...) unconditionally at its top level.
+// bulkFold checks that fd is a fold of a single-element method over its
+// operand: either one covering loop over the operand whose body unconditionally
+// calls a method named in accept with the visited element, or (no loop at all) a
+// delegation that hands the operand parameter to a method named in delegates.
 func bulkFold(c *Ctx, info *types.Info, fd *ast.FuncDecl, single string, onRecvOrLocal bool) string {
+	return bulkFoldSet(c, info, fd, map[string]bool{single: true}, nil)
+}
+
+func bulkFoldSet(c *Ctx, info *types.Info, fd *ast.FuncDecl, accept map[string]bool, delegates map[string]bool) string {
 	params := paramObjs(info, fd)
 	loops := loopsIn(fd.Body)
+	if len(loops) == 0 && len(delegates) > 0 {
+		ok := false
+		ast.Inspect(fd.Body, func(x ast.Node) bool {
+			if _, mname, call, isCall := methodCall(x); isCall && delegates[mname] {
+				for _, a := range call.Args {
+					for _, p := range params {
+						if isObj(info, a, p) {
+							ok = true
+						}
+					}
+				}
+			}
+			return true
+		})
+		if ok {
+			return ""
+		}
+		return "the operand is neither enumerated nor handed to a bulk method that enumerates it"
+	}
 	if len(loops) != 1 {
 		return fmt.Sprintf("%d loops, required one loop over the operand", len(loops))
 	}
@@ -355,7 +381,7 @@ func bulkFold(c *Ctx, info *types.Info, fd *ast.FuncDecl, single string, onRecvO
 			continue
 		}
 		ast.Inspect(s, func(x ast.Node) bool {
-			if _, mname, call, ok := methodCall(x); ok && mname == single && len(call.Args) >= 1 {
+			if _, mname, call, ok := methodCall(x); ok && accept[mname] && len(call.Args) >= 1 {
 				uses := false
 				for _, a := range call.Args {
 					ast.Inspect(a, func(y ast.Node) bool {
@@ -386,7 +412,59 @@ func bulkFold(c *Ctx, info *types.Info, fd *ast.FuncDecl, single string, onRecvO
 		})
 	}
 	if !found {
-		return "the loop body does not unconditionally apply " + single + " to the element it visits"
+		var names []string
+		for n := range accept {
+			names = append(names, n)
+		}
+		sort.Strings(names)
+		return "the loop body does not unconditionally apply " + strings.Join(names, "/") + " to the element it visits"
 	}
 	return ""
+}
+
+// sameTypeCallGraph: method name -> names of methods of the same named type it calls on its receiver.
+func (c *Ctx) sameTypeCallGraph(n *types.Named) map[string]map[string]bool {
+	role := c.roleOf(n.Obj().Pkg())
+	info := c.info(role)
+	g := map[string]map[string]bool{}
+	for name, fd := range c.methodsOf(n) {
+		g[name] = map[string]bool{}
+		recv := recvObj(info, fd)
+		ast.Inspect(fd.Body, func(x ast.Node) bool {
+			if call, ok := x.(*ast.CallExpr); ok {
+				if cf := calleeOf(info, call); cf != nil && recvNamed(cf) != nil && recvNamed(cf).Origin() == n.Origin() {
+					if rx, _, _, ok := methodCall(call); ok && isObj(info, rx, recv) {
+						g[name][cf.Name()] = true
+					}
+				}
+			}
+			return true
+		})
+	}
+	return g
+}
+
+// reachers: the methods from which a method satisfying pred is reachable (reflexive).
+func reachers(g map[string]map[string]bool, pred func(name string) bool) map[string]bool {
+	out := map[string]bool{}
+	for n := range g {
+		if pred(n) {
+			out[n] = true
+		}
+	}
+	for changed := true; changed; {
+		changed = false
+		for n, cs := range g {
+			if out[n] {
+				continue
+			}
+			for cal := range cs {
+				if out[cal] {
+					out[n] = true
+					changed = true
+				}
+			}
+		}
+	}
+	return out
 }
